@@ -28,10 +28,13 @@ func checkC04(p *Prog, r *Report) {
 	r.rule("C04.W2", "every insertion of wire data into rcv_buf is dominated by sn in [rcv_nxt, rcv_nxt+rcv_wnd) (signed differences) and by the duplicate test !rcv_buf.Has(sn); a re-insert pushes back exactly the element popped in the same iteration", 2)
 	r.rule("C04.W3", "wnd_unused returns 0 or rcv_wnd - rcv_queue.Len() under Len < rcv_wnd; every store to segment.wnd is wnd_unused(), a copy of the flush template, or the wire parser's value", 4)
 	r.rule("C04.W8", "every segment encoded by flush had its wnd stored from this flush's wnd_unused() (directly or via the template) on every path since the start of flush / of its loop iteration", 3)
+	r.rule("C04.W9", "the two quantities the admission test of W4 is computed from are what they stand for: rmt_wnd comes from the constructor default and the wnd field of regular packets only — a FEC-recovered (older) packet must not overwrite a newer advertisement (= C03.P5); snd_una is stored by shrink_buf alone, as the head of snd_buf or snd_nxt — never copied from a packet's una field, which a peer can forge beyond snd_nxt (= C01.S4)", 3)
 	r.rule("C04.W4", "every snd_buf.Push is dominated by _itimediff(snd_nxt, snd_una+w) < 0 with w <= snd_wnd, w <= rmt_wnd and, when nocwnd == 0, w <= cwnd; the pushed segment comes from snd_queue.Pop and gets sn = snd_nxt", 1)
 	r.rule("C04.W5", "with congestion control on, the timeout arm (lostSegs > 0) stores cwnd = 1 and no later store on the way to the exit raises it", 1)
 	r.rule("C04.W6", "in WriteBuffers every kcp.Send is dominated by a branch on WaitSnd() < snd_wnd taken in the same critical section (no Unlock between test and Send); the refused path reaches the blocking select", 2)
 	r.rule("C04.W7", "every store that can raise cwnd in Input is dominated by _itimediff(snd_una, old snd_una) > 0 and cwnd < rmt_wnd, and is followed by the clamp cwnd <= rmt_wnd before the function returns", 2)
+	delegate(p, r, "C03", checkC03, "C03.P5", "C04.W9")
+	checkSndUnaStores(p, r, "C04.W9")
 
 	push := p.Method("RingBuffer", "Push")
 	heapPush := heapFunc(p, "Push")
